@@ -154,7 +154,9 @@ func scenReverse(n, per int, fmtIdx int, cut string, transport string, withOptio
 				rec.Returned = true
 				rec.Returns++
 				switch {
-				case err != nil && (strings.Contains(err.Error(), "websocket connection closed") || strings.Contains(err.Error(), "exiting")):
+				case err != nil && strings.Contains(err.Error(), "websocket routine exiting"):
+					rec.Outcome = "exiting"
+				case err != nil && strings.Contains(err.Error(), "websocket connection closed"):
 					rec.Outcome = "connerr"
 				case err != nil:
 					rec.Outcome = "other:" + err.Error()
@@ -293,6 +295,9 @@ func init() {
 			}
 			emit(scenReverse(1, 1, 0, "prewrite", "ws", true))
 			emit(scenReverse(2, 2, 0, "prewrite", "ws", true))
+			// many reverse requests handed to the connection while its loop is held, then the client goes away: each of
+			// them is either taken (and failed with the rest) or its caller sees the loop end; none may be left behind
+			emit(scenReverse(1, 24, 0, "prewrite", "ws", true))
 			emit(scenReverse(1, 2, 0, "", "http", true))
 			emit(scenReverse(1, 2, 0, "", "ws", false))
 		}
